@@ -316,7 +316,9 @@ pub fn run(ctx: &Ctx) -> Report {
         }
     }
     if ctx.strict() {
-        rep.require("tls_handshake_replies_checked", 4);
+        if cfg!(feature = "tls") {
+            rep.require("tls_handshake_replies_checked", 4);
+        }
         rep.require("outbound_packets_checked", 1000);
         rep.require("responses_wrapping_around", 2);
         rep.require("multi_packet_requests", 1);
